@@ -176,6 +176,15 @@ pub fn read_plain(ctx: &Arc<Context>, fmt: &str, bytes: &[u8]) -> Result<Report,
     }
 }
 
+/// The asynchronous form of `read_plain`, driven by the simulator's executor.
+pub fn read_plain_async(ctx: &Arc<Context>, fmt: &str, bytes: &[u8]) -> Result<Report, String> {
+    let src = std::io::Cursor::new(bytes.to_vec());
+    match crate::exec::block_on(Reader::from_shared_context(ctx).with_stream_async(fmt, src)) {
+        Ok(r) => Ok(Report::from_reader(&r)),
+        Err(e) => Err(err_kind(&e)),
+    }
+}
+
 pub fn read_sim(
     ctx: &Arc<Context>,
     fmt: &str,
